@@ -3,7 +3,16 @@ promotion never narrows, never drops nullability, is idempotent.
 
 Scope: all sequences of length <= 4 (quick) / 5 (thorough) over a 13-value pool, compared
 with the lattice join computed on the *set* of types; every (dtype, value) promotion pair.
+
+"never on element order, position ... or LENGTH": the 'long' block types sequences and CSV files of
+1001 / 1500 / 2500 rows of one kind (int, float, str) in which a value of ANOTHER kind (a float, an int, an
+empty cell / short row = None, a text, None followed by a text; for plain sequences also bool, complex,
+date) occurs exactly once - at the first, the middle, the 1000th, the 1001st or the last position.  The
+dtype of read_csv's column (with and without a header line), of Vector(values) and of infer_dtype (list
+and iterator) must be the lattice join of the kinds present, the parsed values must be the cells, and the
+same rows in reversed order must give the same dtype (keys '...:long-*').
 """
+import io
 import itertools
 from datetime import date, datetime
 
@@ -41,6 +50,110 @@ def cases(tier, seed):
     for vc in VALCOLS:
         for keys in ([0, 0, 1], [0, 1, 2], [None, None, 0]):
             yield {'op': 'derived', 'values': lit(vc), 'keys': lit(keys)}
+    yield from long_cases(tier)
+
+
+# ---- typing does not depend on size or position: long sequences and long CSV files ------------------
+LONG_N = [1001, 1500, 2500]
+LONG_BASE = ['int', 'float', 'str']
+LONG_POS = ['first', 'middle', 'row-1000', 'row-1001', 'last']
+# the one (or two) cells of another kind; 'missing' = the CSV row has no cell for the column at all
+ODD = {'int': 7, 'float': 2.5, 'none': None, 'missing': None, 'str': 'n/a', 'bool': True, 'complex': 1j, 'date': date(2020, 1, 1)}
+ODD_CSV = [['float'], ['int'], ['none'], ['missing'], ['str'], ['none', 'str'], []]
+ODD_SEQ = ODD_CSV[:3] + ODD_CSV[4:] + [['bool'], ['complex'], ['date'], ['none', 'float']]
+
+
+def long_base_value(base, i):
+    r = i % 97
+    return r if base == 'int' else r + 0.5 if base == 'float' else 'w%d' % r
+
+
+def long_values(case):
+    """(values, position of the first odd cell) of a 'long' case, from its parameters alone."""
+    n, odd = case['n'], case['odd']
+    vals = [long_base_value(case['base'], i) for i in range(n)]
+    p = {'first': 0, 'middle': n // 2, 'row-1000': 999, 'row-1001': 1000, 'last': n - 1}[case['pos']]
+    p = min(p, n - len(odd))
+    for j, kind in enumerate(odd):
+        vals[p + j] = ODD[kind]
+    return vals, p
+
+
+def long_cases(tier):
+    for n in LONG_N:
+        for base in LONG_BASE:
+            for site in ('read_csv', 'read_csv-noheader', 'Vector', 'infer_dtype'):
+                for odd in (ODD_CSV if site.startswith('read_csv') else ODD_SEQ):
+                    if odd == [base]:
+                        continue
+                    for pos in (LONG_POS if odd else LONG_POS[:1]):
+                        if n == 1001 and pos == 'last' and len(odd) == 1:
+                            continue            # the same input as 'row-1001'
+                        if site == 'read_csv-noheader' and 'missing' in odd and pos in ('first', 'last', 'row-1001' if n == 1001 else ''):
+                            continue            # without a header line the FIRST row (last, once reversed) decides the number of columns
+                        yield {'op': 'long', 'site': site, 'n': n, 'base': base, 'odd': odd, 'pos': pos}
+
+
+def csv_text(vals, odd, p, header):
+    """CSV source of an id column and the value column: None is an empty cell, or (odd kind 'missing') a row
+    that ends after the id; everything else is written with repr / as is."""
+    missing = {p + j for j, kind in enumerate(odd) if kind == 'missing'}
+    lines = ['id,val'] if header else []
+    for i, x in enumerate(vals):
+        if i in missing:
+            lines.append(str(i))
+        else:
+            lines.append(f'{i},' + ('' if x is None else x if isinstance(x, str) else repr(x)))
+    return '\n'.join(lines) + '\n'
+
+
+def long_observe(case, vals, p, odd):
+    """(dtype, values or None, truthful message) of the site on these values."""
+    site = case['site']
+    if site.startswith('read_csv'):
+        t = serif.read_csv(io.StringIO(csv_text(vals, odd, p, site == 'read_csv')), has_header=site == 'read_csv')
+        col = t.cols()[1]
+        return col.schema(), list(col._underlying), truthful(t)
+    if site == 'Vector':
+        v = Vector(list(vals))
+        return v.schema(), list(v._underlying), truthful(v)
+    a, b = serif.typing.infer_dtype(list(vals)), serif.typing.infer_dtype(iter(vals))
+    return (a if a == b else (a, b)), None, None
+
+
+def eval_long(case):
+    fails = []
+    site = case['site']
+    vals, p = long_values(case)
+    odd = case['odd']
+    want = set_join(vals)
+    descr = (f"{site} of {case['n']} rows of {case['base']} cells" +
+             (f" with {[ODD[k] for k in odd]!r} ({'/'.join(odd)}) at row {p + 1}" if odd else ''))
+    seen = {}
+    for order in ('forward', 'reversed'):
+        if order == 'forward':
+            vs, pp, oo = vals, p, odd
+        else:
+            vs, pp, oo = vals[::-1], len(vals) - p - len(odd), odd[::-1]
+        try:
+            got, got_vals, m = long_observe(case, vs, pp, oo)
+        except Exception as e:
+            fails.append(Fail(f'C04:{site}:long-raises:{type(e).__name__}', f'{descr} [{order}]: raised {e!r}', want, repr(e)))
+            continue
+        seen[order] = got
+        if m:
+            fails.append(Fail(f'C03:{site}:truthful', f'{descr} [{order}]: {m[:200]}', None, got))
+        if got_vals is not None and not same(got_vals, vs):
+            bad = next((i for i, (g, w) in enumerate(zip(got_vals, vs)) if not same(g, w)), None)
+            fails.append(Fail(f'C04:{site}:long-values', f'{descr} [{order}]: the column does not hold the cells (first difference at row {bad})',
+                              None if bad is None else vs[bad], None if bad is None else got_vals[bad]))
+        if got != want:
+            fails.append(Fail(f'C04:{site}:long-not-typed-by-inference',
+                              f'{descr} [{order}]: typed {got}, the lattice join of the kinds present is {want}', want, got))
+    if len(seen) == 2 and seen['forward'] != seen['reversed']:
+        fails.append(Fail(f'C04:{site}:long-dtype-depends-on-row-order',
+                          f"{descr}: typed {seen['forward']}, the same rows in reversed order {seen['reversed']}", want, seen))
+    return fails
 
 
 def derived_columns(vals, keys):
@@ -99,6 +212,8 @@ def evaluate(case):
         if got2 != want:
             fails.append(Fail('C04:infer_dtype:iterator', f'infer_dtype(iter({case["values"]})) = {got2} != {want}', want, got2))
         return fails
+    if case['op'] == 'long':
+        return eval_long(case)
     if case['op'] == 'derived':
         for site, col in derived_columns(ev(case['values']), ev(case['keys'])):
             if not isinstance(col, Vector) or isinstance(col, Table):
@@ -133,6 +248,8 @@ def evaluate(case):
 
 
 def nontrivial(case):
+    if case['op'] == 'long':
+        return ('long', case['site'], case['n'], case['base'], tuple(case['odd']), case['pos'])
     if case['op'] == 'derived':
         return ('d', case['values'], case['keys'])
     if case['op'] == 'infer':
@@ -143,6 +260,7 @@ def nontrivial(case):
 
 if __name__ == '__main__':
     main('C04', cases, evaluate,
-         rule='all sequences over a 13-value pool (None, bool, int, float, complex, str, bytes, date, datetime, list, dict, tuple, user class) up to the stated length, in every order, compared with the join of the type set; all (kind, nullable, value) promotion triples. distinct = distinct (type multiset signature, length) for sequences of length>=2 plus every promotion triple',
-         bound=lambda tier: {'max_len': 4 if tier == 'quick' else 5, 'pool': 13, 'promotion_pairs': 13 * 2 * 13},
+         rule='all sequences over a 13-value pool (None, bool, int, float, complex, str, bytes, date, datetime, list, dict, tuple, user class) up to the stated length, in every order, compared with the join of the type set; all (kind, nullable, value) promotion triples; long block: read_csv (header / no header), Vector and infer_dtype on 1001 / 1500 / 2500 rows of int / float / str with one or two cells of another kind (float, int, empty, missing, text, bool, complex, date) at the first / middle / 1000th / 1001st / last row, forward and reversed. distinct = distinct (type multiset signature, length) for sequences of length>=2 plus every promotion triple',
+         bound=lambda tier: {'max_len': 4 if tier == 'quick' else 5, 'pool': 13, 'promotion_pairs': 13 * 2 * 13,
+                             'long_rows': LONG_N, 'long_positions': LONG_POS, 'long_odd_kinds': sorted(ODD)},
          nontrivial=nontrivial)
